@@ -18,6 +18,9 @@ RULES = {
     "R11.3": "mixin routing: every other mutator is an abc mixin or routes through add/discard/clear",
     "R11.4": "adjacency delegation: out_edges/in_edges use the matching multigraph view, yield "
              "Edge(s, t, l) in that order; block incoming/outgoing properties delegate to them",
+    "R11.6": "multigraph keys are never user values: a key handed to networkx (has_edge / "
+             "remove_edge / add_edge key=) comes from the graph itself, never from edge.label "
+             "(None is a wildcard key in networkx)",
     "R11.5": "identity of nodes, value equality of labels: Edge/EdgeLabel are NamedTuples "
              "defining neither __eq__ nor __hash__; CFG nodes neither",
 }
@@ -83,6 +86,9 @@ def run(chk: Check) -> None:
     dis = cfgc.methods.get("discard")
     ek = cfgc.methods.get("_edge_key")
     con = cfgc.methods.get("__contains__")
+    _keys_from_graph(chk, cfgc)
+    if ek is None and any(not o.ok for o in chk.obs if o.rule == "R11.6"):
+        return      # the key discipline was replaced wholesale; R11.6 reports how
     for nm, f in (("add", add), ("discard", dis), ("_edge_key", ek), ("__contains__", con)):
         if f is None:
             raise AnalysisError("anchor vanished: CFG.%s" % nm)
@@ -339,3 +345,25 @@ def _yields_edge_in_order(f) -> bool:
                     args = [a.id if isinstance(a, ast.Name) else None for a in y.value.args]
                     return args == names and not y.value.keywords
     return False
+
+
+def _keys_from_graph(chk: Check, cfgc) -> None:
+    n = 0
+    for f in list(cfgc.methods.values()):
+        ps = f.param_names()
+        for c in walk_no_nested(f.node):
+            if not (isinstance(c, ast.Call) and isinstance(c.func, ast.Attribute)
+                    and attr_path(c.func.value) == (f.self_name, "_nxg")):
+                continue
+            keyargs = [k.value for k in c.keywords if k.arg == "key"]
+            if c.func.attr in ("has_edge", "remove_edge", "get_edge_data", "add_edge") and len(c.args) >= 3:
+                keyargs.append(c.args[2])
+            for ka in keyargs:
+                n += 1
+                from_label = any(isinstance(x, ast.Attribute) and x.attr == "label" for x in ast.walk(ka))
+                chk.ob("R11.6", "%s:%s(key=%s)" % (f.qualname, c.func.attr, unparse(ka)[:20]), not from_label,
+                       f.loc(c), "%s passes the edge label as a networkx multigraph key (%s): a missing "
+                       "label (None) is a wildcard there, so an unlabelled edge tests as present next to "
+                       "any labelled parallel edge and discarding it removes another edge"
+                       % (f.qualname, unparse(c)[:60]), 2)
+    chk.extra["nx_key_arguments"] = n
